@@ -50,11 +50,11 @@ META = {
 def run(ctx):
     obs = ctx.obs
     obs.extra['meta'] = META
-    for case, rng in ctx.cases(ctx.n(200, 8000), stream='datasets'):
+    for case, rng in ctx.cases(ctx.n(200, 24000), stream='datasets'):
         conv = CONVENTIONS[case % len(CONVENTIONS)]
         spec = {'case': case, 'stream': 'datasets', 'convention': conv}
         ctx.run_case(spec, dataset_case, obs, rng, conv, spec)
-    for case, rng in ctx.cases(ctx.n(140, 12000), stream='faces'):
+    for case, rng in ctx.cases(ctx.n(140, 36000), stream='faces'):
         spec = {'case': case, 'stream': 'faces'}
         ctx.run_case(spec, faces_case, obs, rng, spec)
 
